@@ -6,6 +6,7 @@ import Sqfs.Model.EncXattr
 import Sqfs.Model.IdTable
 import Sqfs.Model.EncTree
 import Sqfs.Spec.PackSpec
+import Sqfs.Model.Path
 /-!
 `sqfsmodel c01 [units]` — line protocol of the C01 unit-level correspondence; the same lines go to
 `harness/h_c01u.c` (the real library) and the two outputs must be identical.
@@ -394,14 +395,18 @@ def addSpecs (d : Defaults) : List TreeSpec → Nat → TNode → List Path → 
       let hard := s.t == 'h'
       let ent : Ent := { rel := s.path, path := s.path, mode := mode, uid := s.uid, gid := s.gid, mtime := s.mtime, dev := 0, ino := 0,
                          rdev := (if s.t == 'b' || s.t == 'c' then (nat? s.extra).getD 0 else 0), mount := false, hard := hard }
+      -- `mknode` (fstree.c:120-126) runs `canonicalize_name` over a hard link's target: "." components and doubled
+      -- slashes disappear (a target "." becomes the root), a ".." component makes the call fail with EINVAL
+      let canonFails := s.t == 'h' && (match fromHex s.extra with | some b => (Sqfs.Path.canonicalize b).isNone | none => false)
       let extra : Option Extra :=
-        if s.t == 'h' then (fromHex s.extra).map (fun b => Extra.link (splitPath b) none)
+        if s.t == 'h' then (fromHex s.extra).map (fun b => Extra.link (splitPath ((Sqfs.Path.canonicalize b).getD b)) none)
         else if s.t == 'l' then (fromHex s.extra).map Extra.str
         else if s.t == 'f' then some (Extra.str [])
         else some Extra.none
       match extra with
       | none => .error "bad-op"
       | some ex =>
+        if canonFails then .error s!"add {i} failed" else
         match addPath d ent ex s.path t with
         | none => .error s!"add {i} failed"
         | some t' => addSpecs d rest (i + 1) t' (if hard then s.path :: l else l)
